@@ -24,17 +24,25 @@ RegOK(e) ==
    /\ \A j \in 1..Len(e.nb) : e.nb[j].i \in 1..15 /\ e.nb[j].param # Default[e.nb[j].i] /\ ~Same(e.nb[j], e.runners[e.nb[j].i])
    /\ \A i \in 1..15 : ResultOK(Tests[i], e.runners[i], TRUE)
    /\ e.readgroup = TRUE /\ e.mutated = FALSE
+   /\ e.expand = -1                                                              \* B2bitArr(data) = BytesToBits(data) (first differing index, -1 = none)
+\* light: a large byte string through the linear-time tests only: byte-oriented runner = bit-oriented entry point at the
+\* default on BytesToBits(data); the library's expansion and file loader give exactly those bits
+LightOK(e) ==
+   /\ e.panic = "" /\ e.expand = -1 /\ e.readgroup = -1 /\ e.mutated = FALSE
+   /\ Len(e.pairs) = 9
+   /\ \A j \in 1..Len(e.pairs) : Same(e.pairs[j].runner, e.pairs[j].def) /\ ResultOK(Tests[e.pairs[j].i], e.pairs[j].runner, TRUE)
 ResOK(e) == e.panic = "" /\ e.t \in {Tests[i] : i \in 1..15} /\ ResultOK(e.t, e.r, e.isrunner) /\ e.mutated = FALSE
 \* bytes: B2bit expands most-significant-bit first, B2Byte inverts it, B2bitArr concatenates (BitSeq!ByteBits / BytesToBits)
 BytesOK(e) == /\ Len(e.rows) = 256 /\ Len(e.back) = 256
               /\ \A b \in 0..255 : e.rows[b + 1] = ByteBits(b) /\ e.back[b + 1] = b
               /\ e.arr = BytesToBits(e.arrbytes)
+              /\ e.proxyarr = BytesToBits(e.arrbytes)      \* the driver's own expansion (used as the reference on large inputs)
               \* ... and still after a caller has appended to and overwritten the slices it was handed
               /\ Len(e.rows2) = 256 /\ \A b \in 0..255 : e.rows2[b + 1] = ByteBits(b)
               /\ e.arr2 = BytesToBits(e.arrbytes)
 Init == l = 1
 Step == /\ l <= Len(Trace)
-        /\ LET e == Trace[l] IN CASE e.ev = "reg" -> RegOK(e) [] e.ev = "res" -> ResOK(e) [] e.ev = "bytes" -> BytesOK(e) [] OTHER -> FALSE
+        /\ LET e == Trace[l] IN CASE e.ev = "reg" -> RegOK(e) [] e.ev = "res" -> ResOK(e) [] e.ev = "bytes" -> BytesOK(e) [] e.ev = "light" -> LightOK(e) [] OTHER -> FALSE
         /\ l' = l + 1
 Spec == Init /\ [][Step]_l
 Accepted == TLCGet("stats").diameter - 1 = Len(Trace)
